@@ -31,7 +31,7 @@ class Case:
     """A module description (pure data), independent of gtirb objects, so that it can be rebuilt identically."""
 
     def __init__(self, rnd, nfun_max=2, with_data=True, with_aux=True, with_cfi=True, mods="ins,del,rep", with_funcs=True, max_mods=3,
-                 closed_tail=False, to_proxy=True, with_lead=False, with_scope=True, with_misc=True, with_ext=False, cfi_patches=False, data_first=0.12, whole_del=0.0):
+                 closed_tail=False, to_proxy=True, with_lead=False, with_scope=True, with_misc=True, with_ext=False, cfi_patches=False, data_first=0.12, whole_del=0.0, inner_data=0.0):
         self.rnd = rnd
         # bytes in front of the first block that belong to no block (the interval starts at 0x1000 - lead, the blocks at 0x1000)
         self.lead = rnd.choice((1, 2, 5)) if with_lead and rnd.random() < 0.12 else 0
@@ -49,6 +49,9 @@ class Case:
                 term = rnd.choice(["nop", "jmp", "jcc", "call", "ret", "ret"])
                 ins = ins + [(term, None)]
                 layout.append(dict(kind="c", ins=ins, func=f if f < nfun else None, fb=b))
+                if with_data and b + 1 < nb and inner_data and rnd.random() < inner_data:
+                    # data between the blocks of a function (a jump table, a literal pool)
+                    layout.append(dict(kind="d", data=bytes(rnd.randrange(256) for _ in range(rnd.randint(1, 4))), func=None))
             if with_data and rnd.random() < 0.3:
                 if rnd.random() < 0.5:
                     # words with symbolic expressions (filled in below): modifications stay on word boundaries
